@@ -73,6 +73,8 @@ def decode_case(raw):
         if kind not in ("partial", "kill_after", "shim_kill"):
             imperfect["kind"] = ["kill_after", "partial"][(dseed >> 7) % 2]
         dmg["lose_copy_sources"] = (dseed >> 5) % 3 != 0
+        # second round: the copies are removed again, other files take their place, and another unfinished sync follows
+        dmg["second_round"] = (dseed >> 19) % 2 == 0
     return {"cfg": cfg, "base": base_steps, "changes": chg_steps, "imperfect": imperfect, "later": later_steps,
             "damage": dmg, "fixopts": FIXOPTS[fo % len(FIXOPTS)]}
 
@@ -165,6 +167,22 @@ def run_case(case, ctx):
             r = w.cmd("sync", ["-E", "-Z"])
         if r.timed_out:
             return Outcome(ok=True, inconclusive=True)
+        if case["damage"].get("second_round"):
+            n2 = 0
+            for ev in list(w.events):
+                if ev and ev[0] == "copy" and os.path.isfile(w.full(ev[3], ev[4])):
+                    size_ = os.path.getsize(w.full(ev[3], ev[4]))
+                    os.unlink(w.full(ev[3], ev[4]))
+                    w.fs_step({"op": "create", "disk": ev[3], "name": "second%d" % n2, "size": max(1, size_), "cseed": 7000 + n2 + case["damage"]["seed"] % 1000, "kind": 0})
+                    n2 += 1
+            if n2:
+                classes.add("second unfinished sync after the copies were replaced")
+                if imp["kind"] == "kill_after":
+                    r = w.cmd("sync", ["-E", "-Z", "--test-kill-after-sync"])
+                else:
+                    r = w.cmd("sync", ["-E", "-Z", "-S", str(imp["S"]), "-B", str(imp["B"])])
+                if r.timed_out:
+                    return Outcome(ok=True, inconclusive=True)
         for s in case["later"]:
             w.fs_step(s)
         try:
